@@ -5,6 +5,7 @@ import (
 	"encoding/binary"
 	"fmt"
 	"math/big"
+	"os"
 	"sort"
 	"strings"
 	"time"
@@ -42,6 +43,7 @@ type eqCheck struct {
 	ipoly map[*sym.Term]poly.Poly
 	rpoly map[*ref.N]poly.Poly
 	byID  map[int]*sym.Term
+	top   map[*sym.Term]bool // the term currently being proved (never replaced by its own cut)
 
 	Proved, Tried, Refined, GaveUp int
 	obs                            int
@@ -50,7 +52,7 @@ type eqCheck struct {
 
 func newEqCheck(r *Run, name, family string, e *sym.Ctx, rb *ref.B) *eqCheck {
 	q := &eqCheck{r: r, name: name, family: family, e: e, rb: rb, rounds: 3, seed: r.Seed,
-		cutRef: map[*sym.Term]*ref.N{}, cutImpl: map[*ref.N]*sym.Term{}, ipoly: map[*sym.Term]poly.Poly{}, rpoly: map[*ref.N]poly.Poly{}, byID: map[int]*sym.Term{}}
+		top: map[*sym.Term]bool{}, cutRef: map[*sym.Term]*ref.N{}, cutImpl: map[*ref.N]*sym.Term{}, ipoly: map[*sym.Term]poly.Poly{}, rpoly: map[*ref.N]poly.Poly{}, byID: map[int]*sym.Term{}}
 	for i := 0; i < q.rounds; i++ {
 		q.ival = append(q.ival, map[*sym.Term]*big.Int{})
 		q.rval = append(q.rval, map[*ref.N]*big.Int{})
@@ -226,6 +228,12 @@ func (q *eqCheck) implPoly(t *sym.Term, open map[*sym.Term]bool, memo map[*sym.T
 	}
 	var p poly.Poly
 	var err error
+	if _, proven := q.cutRef[t]; proven && !open[t] && t.Op != sym.OpAtom && t.Op != sym.OpConst && !q.top[t] {
+		q.byID[t.ID] = t
+		p = poly.Var(t.ID)
+		memo[t] = p
+		return p, nil
+	}
 	switch t.Op {
 	case sym.OpConst:
 		p = poly.Const(q.liftConst(t.C))
@@ -378,6 +386,11 @@ func (pe *pairEmitter) impl(t *sym.Term) string {
 		return s
 	}
 	var s string
+	if _, proven := pe.q.cutRef[t]; proven && !pe.open[t] && t.Op != sym.OpAtom && t.Op != sym.OpConst && !pe.q.top[t] {
+		s = pe.declare(t)
+		pe.inames[t] = s
+		return s
+	}
 	switch t.Op {
 	case sym.OpConst:
 		s = smtLit(pe.q.liftConst(t.C))
@@ -453,21 +466,31 @@ func smtLit(c *big.Int) string {
 // an identity (possibly after unfolding cut points); returns whether an obligation was added.
 func (q *eqCheck) provePair(label string, t *sym.Term, n *ref.N) bool {
 	open := map[*sym.Term]bool{}
-	for attempt := 0; attempt < 14; attempt++ {
+	for attempt := 0; attempt < 24; attempt++ {
 		im, rm := map[*sym.Term]poly.Poly{}, map[*ref.N]poly.Poly{}
 		pi, err := q.implPoly(t, open, im)
 		if err != nil {
+			if os.Getenv("VERIF_SWEEPDBG") == "2" {
+				fmt.Fprintf(os.Stderr, "  provePair %s attempt %d: impl poly: %v\n", label, attempt, err)
+			}
 			return false
 		}
 		pr, err := q.refPoly(n, open, rm)
 		if err != nil {
+			if os.Getenv("VERIF_SWEEPDBG") == "2" {
+				fmt.Fprintf(os.Stderr, "  provePair %s attempt %d: ref poly: %v\n", label, attempt, err)
+			}
 			return false
 		}
 		d := poly.Sub(pi, pr)
 		var K poly.Poly
 		ok := d.IsZero()
-		if !ok && !q.bigMod {
-			K, ok = d.DivisibleBy(P)
+		M := P
+		if q.bigMod {
+			M = R
+		}
+		if !ok {
+			K, ok = d.DivisibleBy(M)
 		}
 		if ok {
 			pe := &pairEmitter{q: q, open: open, inames: map[*sym.Term]string{}, rnames: map[*ref.N]string{}, decl: map[string]bool{}}
@@ -479,11 +502,8 @@ func (q *eqCheck) provePair(label string, t *sym.Term, n *ref.N) bool {
 				for id := range varsOf(K) {
 					pe.declare(q.byID[id])
 				}
-				goal = fmt.Sprintf("(= (- %s %s) (* %s %s))", is, rs, P, K.SMT(func(id int) string { return pe.declare(q.byID[id]) }))
-				note = "identity impl - ref = p*K with encoder-supplied K"
-			}
-			if q.bigMod {
-				goal = fmt.Sprintf("(= %s %s)", is, rs)
+				goal = fmt.Sprintf("(= (- %s %s) (* %s %s))", is, rs, M, K.SMT(func(id int) string { return pe.declare(q.byID[id]) }))
+				note = "identity impl - ref = m*K with encoder-supplied K (m = the field modulus)"
 			}
 			script := pe.sb.String() + "(assert (not " + goal + "))"
 			q.obs++
@@ -494,6 +514,15 @@ func (q *eqCheck) provePair(label string, t *sym.Term, n *ref.N) bool {
 			}
 			return true
 		}
+		if os.Getenv("VERIF_SWEEPDBG") == "2" {
+			var vn []string
+			for id := range varsOf(d) {
+				a := q.byID[id]
+				_, pv := q.cutRef[a]
+				vn = append(vn, fmt.Sprintf("%s(proven=%v,def=%v)", a.Name, pv, a.Def != nil))
+			}
+			fmt.Fprintf(os.Stderr, "  provePair %s attempt %d: |impl|=%d |ref|=%d |D|=%d open=%d vars=%v\n", label, attempt, len(pi), len(pr), len(d), len(open), vn)
+		}
 		// refinement: unfold the proven cut atoms that occur in the difference
 		added := false
 		ids := make([]int, 0)
@@ -503,10 +532,13 @@ func (q *eqCheck) provePair(label string, t *sym.Term, n *ref.N) bool {
 		sort.Sort(sort.Reverse(sort.IntSlice(ids)))
 		for _, id := range ids {
 			a := q.byID[id]
-			if a != nil && a.Op == sym.OpAtom && a.Def != nil && !open[a] {
+			if a != nil && ((a.Op == sym.OpAtom && a.Def != nil) || a.Op == sym.OpMul || a.Op == sym.OpAdd || a.Op == sym.OpSub) && !open[a] {
 				if _, proven := q.cutRef[a]; proven {
 					open[a] = true
 					added = true
+					if attempt < 8 {
+						break // first one cut point at a time (most recently created first), later all of them
+					}
 				}
 			}
 		}
@@ -550,6 +582,9 @@ func (q *eqCheck) sweepDefs(defs []*sym.Term) {
 		}
 		cands := q.sigIdx[q.implSig(m)]
 		if len(cands) == 0 {
+			if os.Getenv("VERIF_SWEEPDBG") == "2" {
+				fmt.Fprintf(os.Stderr, "  no reference node has the signature of %s (%s) site %s\n", m.Name, m.Kind, firstFrame(m.Site))
+			}
 			continue
 		}
 		q.Tried++
@@ -579,6 +614,9 @@ func (q *eqCheck) sweepDefs(defs []*sym.Term) {
 			q.Proved++
 		} else {
 			q.GaveUp++
+			if os.Getenv("VERIF_SWEEPDBG") != "" && q.GaveUp <= 5 {
+				fmt.Fprintf(os.Stderr, "sweep %s: gave up on atom %s (%s) site %s, %d candidates\n", q.name, m.Name, m.Kind, m.Site, len(cands))
+			}
 		}
 	}
 }
@@ -673,3 +711,74 @@ func (q *eqCheck) output(label string, t *sym.Term, n *ref.N) (ok bool, diffRoun
 func (q *eqCheck) stats() map[string]any {
 	return map[string]any{"check": q.name, "cut_points_proved": q.Proved, "candidates_tried": q.Tried, "refined": q.Refined, "given_up": q.GaveUp, "obligations": q.obs, "ref_nodes": len(q.rb.All)}
 }
+
+// sweepTerms establishes cut points at the non-linear nodes (products of two non-constants) of a
+// hook-free implementation DAG, in topological order.
+func (q *eqCheck) sweepTerms(roots []*sym.Term) {
+	if q.sigIdx == nil {
+		q.indexRef()
+	}
+	seen := map[*sym.Term]bool{}
+	var order []*sym.Term
+	type fr struct {
+		t *sym.Term
+		i int
+	}
+	for _, r := range roots {
+		st := []fr{{r, 0}}
+		for len(st) > 0 {
+			f := &st[len(st)-1]
+			if seen[f.t] {
+				st = st[:len(st)-1]
+				continue
+			}
+			if f.i < len(f.t.Args) {
+				k := f.t.Args[f.i]
+				f.i++
+				if !seen[k] {
+					st = append(st, fr{k, 0})
+				}
+				continue
+			}
+			seen[f.t] = true
+			order = append(order, f.t)
+			st = st[:len(st)-1]
+		}
+	}
+	for _, t := range order {
+		if t.Op != sym.OpMul || t.Args[0].IsConst() || t.Args[1].IsConst() {
+			continue
+		}
+		if _, done := q.cutRef[t]; done {
+			continue
+		}
+		cands := q.sigIdx[q.implSig(t)]
+		if len(cands) == 0 {
+			continue
+		}
+		q.Tried++
+		ok := false
+		for ci, n := range cands {
+			if ci >= 3 {
+				break
+			}
+			q.top[t] = true
+			pr := q.provePair(fmt.Sprintf("cut-node#%d", t.ID), t, n)
+			delete(q.top, t)
+			if pr {
+				q.setCut(t, n)
+				ok = true
+				break
+			}
+		}
+		if ok {
+			q.Proved++
+		} else {
+			q.GaveUp++
+		}
+	}
+}
+
+type polyT = poly.Poly
+
+func polySub(a, b poly.Poly) poly.Poly { return poly.Sub(a, b) }
